@@ -370,6 +370,21 @@ func builderPairingN(c *Ctx, rule string, only ...string) {
 					common = append(common, f)
 				}
 			}
+			// an optional field of the node is written exactly when the field is present: where the paths with the key
+			// test the key's own source, only those tests may separate them from the paths without it (a builder flag
+			// that happens to differ does not explain a missing displayName)
+			if src := emittedAlias[fn][key]; strings.HasPrefix(src, ".") {
+				root := x + "." + strings.Split(strings.TrimPrefix(src, "."), ".")[0]
+				var own []string
+				for _, f := range common {
+					if strings.Contains(f, root) {
+						own = append(own, f)
+					}
+				}
+				if len(own) > 0 {
+					common = own
+				}
+			}
 			refutedBy := func(p bpath, cond string) bool {
 				neg := canonText(cond, true)
 				for _, f := range p.facts() {
